@@ -287,12 +287,13 @@ where
     let mut s = st.into_inner();
     match result {
         Ok(()) => {}
-        Err(TestError::Fail(reason, _)) => {
-            // `last_fail` is the last failing (i.e. the most shrunk) case
-            let (message, replay) = s
-                .last_fail
-                .take()
-                .unwrap_or((reason.to_string(), json!({"note": "no replay captured"})));
+        Err(TestError::Fail(reason, value)) => {
+            // `last_fail` is the last failing (i.e. the most shrunk) case; without one the closure
+            // itself panicked (a harness error): keep the choice sequence and the reason
+            let (message, replay) = s.last_fail.take().unwrap_or((
+                format!("the check itself failed: {reason}"),
+                json!({"note": "panic inside the check, no case captured", "choices": value, "reason": reason.to_string()}),
+            ));
             let path = write_replay(&ctx.found_dir(), &ctx.id, &replay);
             s.report.violations.push(Violation { message, replay: path });
         }
